@@ -435,6 +435,13 @@ class Circuit:
                     errcnt += 1
                     blk.log_warning(
                         "%s timeout, check timeout value (%.1f s)", jobname, timeout)
+                except asyncio.CancelledError:
+                    # the simulation is being stopped; wait_for() has cancelled only the task
+                    # it was waiting for, do not leave the remaining tasks running
+                    for _blk, other, _timeout in btt_list:
+                        if not other.done():
+                            other.cancel()
+                    raise
                 except Exception:
                     # will be logged below
                     pass
